@@ -132,3 +132,32 @@ Theorem dur_frac_1digit_partial :
   forallb (fun ip => negb (one_digit_ok py_dur false c_W 604800 ip)) ips = true.
 Proof. exact (conj one_digit_py (conj one_digit_rs one_digit_py_weeks_wrong)). Qed.
 Print Assumptions dur_frac_1digit_partial.
+
+(* ------------------------------------------------------------ the regular expression itself, executed *)
+From PV Require Import Model.C07Regex Gen.DurRegexAst Proofs.RegexShape Model.DurRegexMatch Proofs.C13Regex Proofs.C13RegexLift.
+
+(* closed form of ISO8601_DURATION.match on EVERY string: the AST generated from /repo's pattern through CPython's pattern parser
+   (Gen/DurRegexAst.v; `\d+` bounded by the input length), run by the backtracking span matcher, does exactly the token scans
+   try_tok of the hand-written matcher and never needs to backtrack over a token *)
+Theorem dur_regex_is_hand_matcher : forall s, match_duration_re s = match_duration s.
+Proof. exact match_duration_re_eq. Qed.
+Print Assumptions dur_regex_is_hand_matcher.
+
+(* hence the whole pure-Python pipeline with the regex executed (regex + _parse_iso8601_duration + Duration.__new__) equals the
+   modelled one on every string: every statement about py_dur above is a statement about the generated regex *)
+Theorem py_dur_regex_eq : forall s, py_dur_re s = py_dur s.
+Proof. exact py_dur_re_eq. Qed.
+Print Assumptions py_dur_regex_eq.
+
+(* dur_int_py through the executed regex: for every list of digit strings per designator the pipeline returns the exact value *)
+Theorem dur_int_py_regex : forall y mo d t, owf y -> owf mo -> owf d -> twf t ->
+  py_dur_re (render_dur y mo d t) =
+  native_of (oval y) (oval mo) (int_us (oval y) (oval mo) (oval d) (oval (t_h t)) (oval (t_mi t)) (oval (t_s t))).
+Proof. exact py_int_all_re. Qed.
+Print Assumptions dur_int_py_regex.
+
+(* dur_frac_ym_rejected through the executed regex, whatever follows the designator *)
+Theorem dur_frac_ym_rejected_regex : forall ds sep fs c r, digits ds -> sepc sep -> digits fs -> c = c_Y \/ c = c_M ->
+  py_dur_re (c_P :: ds ++ sep :: fs ++ c :: r) = Raise E_ValueError.
+Proof. exact py_frac_ym_re. Qed.
+Print Assumptions dur_frac_ym_rejected_regex.
